@@ -1,8 +1,21 @@
 use crate::runner::{Ctx, Property};
 
 pub mod c01;
+pub mod c14;
 pub mod c15;
+pub mod c16;
+pub mod c17;
+pub mod c19;
+pub mod c20;
 
 pub fn all(ctx: &Ctx) -> Vec<Property> {
-    vec![c01::property(ctx), c15::property(ctx)]
+    vec![
+        c01::property(ctx),
+        c14::property(ctx),
+        c15::property(ctx),
+        c16::property(ctx),
+        c17::property(ctx),
+        c19::property(ctx),
+        c20::property(ctx),
+    ]
 }
